@@ -71,4 +71,14 @@ PROPS['C19'] = {
     'trusted_extra': ["Python's csv module (writerow/reader round trip) is assumed, exercised by the correspondence on text with commas, quotes and newlines"],
 }
 
+PROPS['C05'] = {
+    'group': 'tract',
+    'level': 'proof',
+    'explanation': 'Level A theorems about the model of SecUnpacker/LotUnpacker, for ANY regex step function and lists of any length: if the right-to-left '
+                   'stream of (number, through-to-its-left) is that of a list l, the loop returns exactly expand(l) (ranges inclusive in their stated direction, '
+                   'concatenated in reading order, duplicates kept), with one nonsequential flag per range whose start is not below its end (C05_sections, C05_lots). '
+                   'The seam (the regenerated multisec/multilot patterns yield that stream on rendered lists) is checked on examples by vm_compute and carried by '
+                   'differential execution and an expand() oracle on find_sec / PLSSDesc / Tract for random items x connective spellings x keywords.',
+}
+
 NOT_CLAIMED = {}
